@@ -25,6 +25,27 @@ CLAIMS = {
         "combinator wrappers (FutureExt::map / boxed) around the two verified conversion functions and are not themselves under contract.",
    technique="contract-based deductive verification (Verus) of mechanically extracted functions",
    design="4/C19"),
+ "C01": dict(
+   text="Proof (Verus) of the real StandardCupv2Handler::verify_response (accepted iff the ETag, stripped per parse_etag, is hex(DER sig):hex(SHA-256(request body)) with the request-hash equality over whole "
+        "byte strings, the signature well-formed DER and valid under the key registered for the given id over SHA-256(SHA-256(req)||SHA-256(resp)||\"id:noncehex\"); accepted signature returned unchanged), "
+        "make_transaction_hash (exact digest composition through a Sha256 stand-in with a ghost absorb buffer), verify_response_with_signature, StandardCupv2Handler::new (id->key map). "
+        "parse_etag (slice patterns + unsafe) is extracted verbatim and checked by Kani with a pointer/length oracle: bounded (ETag <= 64 visible-ASCII bytes), labelled as such.",
+   note=TRUST + "sha256, hex and ECDSA validity are uninterpreted (no collision-resistance/unforgeability reasoning: 'any change makes verification fail' holds up to those standard assumptions); "
+        "the once().chain().map().collect() of new() is a pinned (assumed) fragment; the Kani part is bounded and not counted as proved.",
+   technique="contract-based deductive verification (Verus) + Kani harness (bounded) for parse_etag", design="4/C01", kani=True),
+ "C03": dict(
+   text="Proof (Verus) of the real decorate_request (metadata = latest key id, a freshly drawn 32-byte nonce, exactly the serialised body; the URI gets exactly one cup2key=<id>:<hex nonce> parameter; body untouched), "
+        "HttpUriExt::append_query_parameter (scheme/authority kept, path and existing query kept, &key=value or ?key=value appended), Nonce::new (fresh draw token), StandardCupv2Handler::new (latest id), "
+        "and, in the state-machine group, that the CUP handler stays configured across every exchange.",
+   note=TRUST + "format! contracts are generated from the literal; Uri parsing/printing is a stand-in (text of a parsed value equals the parsed string); nonce uniqueness across requests reduces to 'each request consumes one fresh RNG draw' "
+        "(distinctness of draws is an assumption on thread_rng); RequestBuilder::build's use of the same Intermediate for wire body and metadata is claimed under C15 when that group is present.",
+   technique="contract-based deductive verification (Verus) of mechanically extracted functions", design="4/C03"),
+ "C20": dict(
+   text="Complete proofs by Kani/CBMC (loop-free harnesses over full-domain symbolic inputs, no bound): derived Ord/PartialOrd/Eq of Version equal numeric lexicographic comparison of the four components for all 2^256 pairs; "
+        "From<[u32; n]> (impl_from! macro output) zero-fills for n = 1..4.",
+   note="Trusted: Kani 0.68 / CBMC 6.11, the harness oracle (lex_cmp written without loops). FromStr, Display and serde (string form) are NOT covered: Kani cannot get through anyhow::Error construction and the Verus route needs an iterator stand-in for str::split that was not built; "
+        "those parts of the property are unclaimed.",
+   technique="Kani function-level harnesses, loop-free over full domain (complete)", design="4/C20", kani=True),
  "C02": dict(
    text="Proof (Verus) of the real do_omaha_request_and_update_context, ping_omaha, report_omaha_event_and_update_context and perform_update_check: "
         "with a CUP handler configured a response the handler rejects yields CupValidation iff rejected, and on that path context, event log and storage log are unchanged "
